@@ -119,8 +119,8 @@ impl Check for C11 {
     }
     fn budget(&self, tier: Tier) -> u64 {
         match tier {
-            Tier::Quick => 6000,
-            Tier::Thorough => 200_000,
+            Tier::Quick => 25_000,
+            Tier::Thorough => 500_000,
         }
     }
     fn run(&self, ch: &mut Chooser, _tier: Tier) -> RunOutcome {
